@@ -554,6 +554,77 @@ def related_registration_history(col, rng):
         col.count('outcomes_equal_to_cold_baseline')
 
 
+def exact_registration_after_lookups(col, rng):
+    """register(X, ..., exact=True) for a type that was already looked up (for the same or another operation): the next call behaves
+    as if the registration had been made first.  On private Glommers and, with classes made for the occasion, on the module-level
+    registry (glom() before, glom.register(), glom() after, compared with a Glommer that registered first)"""
+    for i in range(24):
+        Base = type('XBase%d' % i, (), {})
+        Cls = type('XCls%d' % i, (Base,), {'__init__': lambda self: setattr(self, 'x', 'raw-attribute'),
+                                            '__iter__': lambda self: iter([1, 2, 3])})
+        op = ('get', 'iterate')[i % 2]
+        spec = 'x' if op == 'get' else [T]
+        kw = {'get': lambda o, k: 'registered-getter'} if op == 'get' else {'iterate': lambda o: iter([3, 2, 1])}
+        warmed_with = (spec, [T], 'x', ('x', T))[i % 4]          # the earlier call used the same or another operation
+        module_level = i % 3 == 0
+        warm, cold = Glommer(), Glommer()
+        runner = glom_pkg.glom if module_level else warm.glom
+        before = call(runner, Cls(), warmed_with)
+        (glom_pkg.register if module_level else warm.register)(Cls, exact=True, **kw)
+        cold.register(Cls, exact=True, **kw)
+        a, b = call(runner, Cls(), spec), call(cold.glom, Cls(), spec)
+        col.case(('exact-registration-after-lookup', op, i % 4, module_level), True)
+        col.count('calls_in_history', 2)
+        col.count('registrations', 2)
+        if outcome_signature(a) != outcome_signature(b):
+            col.violation('C06/outcome-depends-on-lookups-before-a-registration:exact:%s' % op,
+                          '%s(X(), %r) after register(X, %s=..., exact=True): with an earlier call %r -> %r the outcome is %r ; on a registry '
+                          'that registered first it is %r' % ('glom' if module_level else 'Glommer.glom', spec, op, warmed_with, before, a, b), None)
+            return
+        col.count('outcomes_equal_to_cold_baseline')
+
+
+def ephemeral_star_expressions(col, rng):
+    """wildcard expressions that do not outlive their call - T expressions and Paths built inline, and (after the text memo has
+    overflowed) path strings - one after the other with different tails: each means what its own steps say"""
+    n = 40
+    mk_target = lambda: {'items': [{'k%d' % j: (i, j) for j in range(n)} for i in range(3)],
+                         'tree': {'l': {'k%d' % j: ('l', j) for j in range(n)}, 'r': {'k%d' % j: ('r', j) for j in range(n)}}}
+    order = list(range(n))
+    rng.shuffle(order)
+
+    def run_series(label, mk_spec, expected):
+        for j in order:
+            t = mk_target()
+            got = call(glom_pkg.glom, t, mk_spec(j))
+            want = expected(t, j)
+            col.case(('ephemeral-star', label), True)
+            col.count('calls_in_history')
+            col.count('ephemeral_wildcard_expressions')
+            if not (got.ok and got.value == want):
+                col.violation('C06/outcome-depends-on-history:short-lived-wildcard-expression:' + label,
+                              '%s with tail k%d, evaluated after %d other short-lived wildcard expressions: %r, expected %r'
+                              % (label, j, order.index(j), got, want), None)
+                return False
+            col.count('outcomes_equal_to_cold_baseline')
+        return True
+    star = lambda t, j: [row['k%d' % j] for row in t['items']]
+    ok = run_series('T.__star__()', lambda j: T['items'].__star__()['k%d' % j], star) and \
+        run_series('Path(.., T.__star__(), ..)', lambda j: Path('items', T.__star__(), 'k%d' % j), star) and \
+        run_series('T.__starstar__()', lambda j: T['tree'].__starstar__()['k%d' % j], lambda t, j: [('l', j), ('r', j)]) and \
+        run_series('star-in-list-spec', lambda j: ('items', [T.__star__()]), lambda t, j: [list(r.values()) for r in t['items']])
+    if not ok or not gcore.PATH_STAR:
+        return
+    with warnings.catch_warnings():
+        warnings.simplefilter('ignore')
+        base = rng.randint(0, 10 ** 6)
+        for i in range(10050):
+            call(glom_pkg.glom, {'k': 1}, 'q%d_%d.k' % (base, i), default=None)
+    col.count('cache_overflows')
+    run_series("string path after memo overflow", lambda j: 'items.*.k%d' % j, star) and \
+        run_series("** string path after memo overflow", lambda j: 'tree.**.k%d' % j, lambda t, j: [('l', j), ('r', j)])
+
+
 def run(ctx):
     col, rng = ctx.col, ctx.rng
     P = pool()
@@ -574,6 +645,8 @@ def run(ctx):
         spec_glom_history(col, rng)
         spec_glom_star_toggles(col)
         related_registration_history(col, rng)
+        exact_registration_after_lookups(col, rng)
+        ephemeral_star_expressions(col, rng)
         for h in range(ctx.n(3, 4)):
             history(col, rng, P, baselines, ctx.n(500, 3000), contract)
         cache_invariants(col, rng, full=True)
